@@ -25,6 +25,8 @@ From Coq Require Import List ZArith Bool String.
 From Verif Require Import Base.Prelude Base.Str Base.Float Base.GoVal
   Schema.Regex Schema.Units Schema.FloatUnits Schema.Syntax Schema.Ops Schema.Cbor
   Generated.Tables Proofs.CborNorm ATP.Msg ATP.Server Proofs.Server Proofs.ServerRoute.
+From Verif Require ATP.Client ATP.System Proofs.ATPClientInv Proofs.C05Vocab Proofs.C05System Proofs.C05Live
+  Proofs.C05ClientHalf Proofs.C05Examples.
 Import ListNotations.
 Open Scope Z_scope.
 Open Scope list_scope.
@@ -183,10 +185,10 @@ Section Examples.
 End Examples.
 
 (* ------------------------------------------------------------------------------------------
-   PROTOCOL LAYER — to be added at integration (client model ATP/Client.v, server model
-   ATP/Server.v, their composition over two FIFO byte pipes; payload := gval; vocabulary of
-   ATP/Msg.v).  Not stated as Coq theorems here because the composed model is not part of this
-   work package; the statements are fixed now so that the data-layer theorem above plugs in.
+   PROTOCOL LAYER — the plan as it was fixed before the composed model existed (kept for
+   reference; the theorems actually proved over the composition ATP/System.v are at the END of
+   this file: C05_refines, C05_never_cross_delivered, C05_every_execute_returns,
+   C05_rejected_is_error, C05_client_routes_by_run_id, C05_v1_concurrent_refuted).
 
    Notation for the composition:
      sys N calls sched   the run of one client and one server, protocol version 3, where the
@@ -256,3 +258,154 @@ Example C05_server_routes_nonvacuous :
      (Verif.ATP.Server.out (Verif.ATP.Server.run Verif.Proofs.Server.c07_example_cfg Verif.ATP.Server.init
                                                  Verif.Proofs.Server.c07_example_schedule)).
 Proof. vm_compute. auto. Qed.
+
+(* ==========================================================================================
+   PROTOCOL LAYER — CLIENT HALF and COMPOSITION (model ATP/System.v: the client model ATP/Client.v
+   with payload := Z (a token standing for the step input) x the server model ATP/Server.v x the
+   two FIFO streams, the client model's scripted peer REPLACED by the real server model).
+
+   Vocabulary (ATP/System.v):
+     scfg                 the plugin: behaviour oracle of ATP/Server.v (sc_srv: what the execution of a
+                          token does, which handlers are slow, which step / signal ids exist) and the
+                          output data of a successful execution (sc_data)
+     sys_init calls close the initial state of a session: `calls : list (callspec Z)` (run id, lane
+                          predecessor = "at most N in flight", signal channels, input token); server
+                          after the handshake
+     slabel, sys_step     one step of a client goroutine (Execute i, signal writer i, read loop with any
+                          read-ahead k, Close) | the pipe carries the oldest client message to the
+                          server | one step of a server goroutine (read loop, closure handler, step /
+                          signal goroutine i) | the environment releases a slow handler
+     sys_run g s sched    the state after the schedule `sched` (undefined if a label is not enabled)
+     sys_final g s        no label is enabled: a maximal execution has ended
+     sys_result s i       what Execute number i has returned (None: not yet)
+     spec_callstep g t    the one-line sequential specification, CallStep of input t in-process:
+                          ROk o (sc_data g t) if the execution of t yields output o, RErr ErrStep else
+   Healthy transport is built into the composition: no label injects a stream fault, a write failure,
+   a cancellation or a closed output.  Hypotheses of the theorems: run ids non-empty and pairwise
+   distinct, lane predecessors point backwards (wf_session).
+   ========================================================================================== *)
+
+(* (P1) SAFETY, every reachable state, every schedule, any number of overlapping calls, with or without
+   Close: whatever Execute number i has returned is CallStep of ITS OWN input - never another run's
+   result, never corrupted data, never a made-up error. *)
+Theorem C05_never_cross_delivered :
+  forall (g : Verif.ATP.System.scfg) (calls : list (Verif.ATP.Client.callspec Z)) (close : bool),
+    (forall x, In x calls -> Verif.ATP.Client.cs_run x <> ""%string) ->
+    Verif.Proofs.ATPClientInv.wf_session (Verif.ATP.System.sys_session calls close) ->
+    forall (sched : list Verif.ATP.System.slabel) (s : Verif.ATP.System.sstate) (i : nat)
+           (x : Verif.ATP.Client.callspec Z) (v : Verif.ATP.Client.result Z),
+      Verif.ATP.System.sys_run g (Verif.ATP.System.sys_init calls close) sched = Some s ->
+      nth_error calls i = Some x -> Verif.ATP.System.sys_result s i = Some v ->
+      v = Verif.ATP.System.spec_callstep g (Verif.ATP.Client.cs_input x).
+Proof. exact Verif.Proofs.C05System.sys_safety. Qed.
+Print Assumptions C05_never_cross_delivered.
+
+(* (P2) PROGRESS of the composition (sessions in which the harness does not call Close): when no label of
+   the composed system is enabled, every Execute has returned - nothing is lost. *)
+Theorem C05_every_execute_returns :
+  forall (g : Verif.ATP.System.scfg) (calls : list (Verif.ATP.Client.callspec Z)),
+    (forall x, In x calls -> Verif.ATP.Client.cs_run x <> ""%string) ->
+    Verif.Proofs.ATPClientInv.wf_session (Verif.ATP.System.sys_session calls false) ->
+    forall (sched : list Verif.ATP.System.slabel) (s : Verif.ATP.System.sstate),
+      Verif.ATP.System.sys_run g (Verif.ATP.System.sys_init calls false) sched = Some s ->
+      Verif.ATP.System.sys_final g s ->
+      forall i c, nth_error (Verif.ATP.Client.callers (Verif.ATP.System.cl s)) i = Some c ->
+                  Verif.ATP.Client.caller_done c = true.
+Proof. exact Verif.Proofs.C05Live.sys_returns. Qed.
+Print Assumptions C05_every_execute_returns.
+
+(* (P3) REFINEMENT: for every number of calls, every input, every schedule of the composed system over
+   protocol version 3, at the end of every maximal execution Execute number i has returned exactly
+   `spec_callstep` of call i's input: the concurrent system refines the sequential specification "a map
+   from run id to CallStep of that run's input".  (The FULL statement of the plan above, with
+   result_of r tr = sys_result s i, healthy sched = the label alphabet of ATP/System.v, distinct_runs =
+   wf_session; the data layer - cbor_norm on both legs - is C05_norm_invariant / C05_norm_decodable; the
+   session does not call Close: the Close half of the client is C06.) *)
+Theorem C05_refines :
+  forall (g : Verif.ATP.System.scfg) (calls : list (Verif.ATP.Client.callspec Z)),
+    (forall x, In x calls -> Verif.ATP.Client.cs_run x <> ""%string) ->
+    Verif.Proofs.ATPClientInv.wf_session (Verif.ATP.System.sys_session calls false) ->
+    forall (sched : list Verif.ATP.System.slabel) (s : Verif.ATP.System.sstate),
+      Verif.ATP.System.sys_run g (Verif.ATP.System.sys_init calls false) sched = Some s ->
+      Verif.ATP.System.sys_final g s ->
+      forall i x, nth_error calls i = Some x ->
+        Verif.ATP.System.sys_result s i = Some (Verif.ATP.System.spec_callstep g (Verif.ATP.Client.cs_input x)).
+Proof. exact Verif.Proofs.C05Live.sys_refines. Qed.
+Print Assumptions C05_refines.
+
+(* (P4) an input the step rejects (behaviour BFails: the input schema refuses it, or the step id does not
+   exist) comes back as THAT run's error and the handler is never reached; by C05_refines the other
+   runs of the session still get their own results. *)
+Theorem C05_rejected_is_error :
+  forall (g : Verif.ATP.System.scfg) (calls : list (Verif.ATP.Client.callspec Z)),
+    (forall x, In x calls -> Verif.ATP.Client.cs_run x <> ""%string) ->
+    Verif.Proofs.ATPClientInv.wf_session (Verif.ATP.System.sys_session calls false) ->
+    forall (sched : list Verif.ATP.System.slabel) (s : Verif.ATP.System.sstate),
+      Verif.ATP.System.sys_run g (Verif.ATP.System.sys_init calls false) sched = Some s ->
+      Verif.ATP.System.sys_final g s ->
+      forall i x, nth_error calls i = Some x ->
+        Verif.ATP.Server.step_outcome (Verif.ATP.System.sc_srv g) "s"%string (Verif.ATP.Client.cs_input x)
+          = Verif.ATP.Server.BFails ->
+        Verif.ATP.System.sys_result s i = Some (Verif.ATP.Client.RErr Verif.ATP.Client.ErrStep) /\
+        Verif.ATP.Server.handler_reached (Verif.ATP.System.sc_srv g) "s"%string (Verif.ATP.Client.cs_input x) = false.
+Proof. exact Verif.Proofs.C05Live.sys_rejected. Qed.
+Print Assumptions C05_rejected_is_error.
+
+(* (P5) the CLIENT HALF as a theorem about the client model alone against an arbitrary environment
+   (Proofs/C05ClientHalf.v: `erun` = any interleaving of client goroutine steps, the pipe, and arrivals of
+   event lists; `arrival_ok`: what arrives are terminal messages `tmsg r t` of the session's calls -
+   work-done(r, "s", o, d) with spec t = ROk o d, or the step-fatal error of run r with spec t = RErr
+   ErrStep - and non-fatal error reports, in any order and multiplicity): every message the client has on
+   the wire is a work-start with step "s" and the run id AND input of one of its calls (or a signal, or
+   client-done), and Execute number i returns spec of ITS OWN input: the read loop files results by run
+   id. *)
+Theorem C05_client_routes_by_run_id :
+  forall (se : Verif.ATP.Client.session Z) (spec : Z -> Verif.ATP.Client.result Z)
+         (tmsg : Verif.ATP.Msg.runid -> Z -> Verif.ATP.Msg.msg Z),
+    Verif.Proofs.ATPClientInv.wf_session se ->
+    Verif.ATP.Client.se_wfail se = None ->
+    (forall x, In x (Verif.ATP.Client.se_calls se) -> Verif.ATP.Client.cs_run x <> ""%string) ->
+    (forall r t,
+       (exists o d, tmsg r t = Verif.ATP.Msg.WorkDone r "s"%string o d ""%string /\ spec t = Verif.ATP.Client.ROk o d) \/
+       (tmsg r t = Verif.ATP.Msg.ErrMsg r true false /\ spec t = Verif.ATP.Client.RErr Verif.ATP.Client.ErrStep)) ->
+    forall (es : list Verif.Proofs.C05ClientHalf.elabel) (s : Verif.ATP.Client.state Z),
+      Forall (Verif.Proofs.C05ClientHalf.arrival_ok se tmsg) es ->
+      Verif.Proofs.C05ClientHalf.erun (Verif.ATP.Client.init se) es = Some s ->
+      Forall (Verif.Proofs.C05Vocab.c05_cwm (Verif.Proofs.C05ClientHalf.hcalls se)) (Verif.ATP.Client.to_server s) /\
+      forall i x c v, nth_error (Verif.ATP.Client.se_calls se) i = Some x ->
+                      nth_error (Verif.ATP.Client.callers s) i = Some c ->
+                      Verif.ATP.Client.c_pc c = Verif.ATP.Client.CDone v ->
+                      Verif.ATP.Client.c_run c = Verif.ATP.Client.cs_run x /\ v = spec (Verif.ATP.Client.cs_input x).
+Proof. exact Verif.Proofs.C05ClientHalf.client_routes. Qed.
+Print Assumptions C05_client_routes_by_run_id.
+
+(* (P6) the legacy version-1 framing (no run id on the wire; every Execute decodes "the next" work-done
+   itself: ATP/System.v v1_step) is NOT transparent for overlapping calls - known finding D26: two calls,
+   a strictly sequential in-order v1 server, the second caller reads first: each caller returns the OTHER
+   call's result, no error. *)
+Theorem C05_v1_concurrent_refuted :
+  exists (g : Verif.ATP.System.scfg) (inputs : list Z) (sched : list Verif.ATP.System.v1label) (s : Verif.ATP.System.v1state),
+    List.length inputs = 2%nat /\
+    Verif.ATP.System.v1_run g (Verif.ATP.System.v1_init inputs) sched = Some s /\ Verif.ATP.System.v1_final g s /\
+    exists i t t', nth_error inputs i = Some t /\ Verif.ATP.System.v1_result s i = Some (Verif.ATP.System.spec_callstep g t') /\
+                   Verif.ATP.System.spec_callstep g t' <> Verif.ATP.System.spec_callstep g t.
+Proof. exact Verif.Proofs.C05Examples.v1_refuted. Qed.
+Print Assumptions C05_v1_concurrent_refuted.
+
+(* ---- non-vacuity: a session of three OVERLAPPING calls (a: slow success, b: success, c: input rejected),
+   answers arriving in the order b, c, a, the read loop reading ahead; the schedule ends in a state in
+   which no label is enabled (sys_quietb is a sound boolean check of sys_final) and the three results are
+   what C05_refines says ---- *)
+Example C05_refines_nonvacuous :
+  (* ex_final := sys_run ex_g (sys_init ex_calls false) ex_sched  (Proofs/C05Examples.v) *)
+  exists s, Verif.Proofs.C05Examples.ex_final = Some s /\
+            Verif.ATP.System.sys_final Verif.Proofs.C05Examples.ex_g s /\
+            Verif.ATP.System.sys_result s 0%nat = Some (Verif.ATP.Client.ROk "success"%string 10) /\
+            Verif.ATP.System.sys_result s 1%nat = Some (Verif.ATP.Client.ROk "other"%string 30) /\
+            Verif.ATP.System.sys_result s 2%nat = Some (Verif.ATP.Client.RErr Verif.ATP.Client.ErrStep).
+Proof. exact Verif.Proofs.C05Examples.ex_refines. Qed.
+
+Example C05_refines_hypotheses_hold :
+  (forall x, In x Verif.Proofs.C05Examples.ex_calls -> Verif.ATP.Client.cs_run x <> ""%string) /\
+  Verif.Proofs.ATPClientInv.wf_session (Verif.ATP.System.sys_session Verif.Proofs.C05Examples.ex_calls false).
+Proof. exact Verif.Proofs.C05Examples.ex_hyps. Qed.
